@@ -6,7 +6,7 @@
 # outcome in /verif/seeded/<ID>_<variant>/.
 ID=$1; V=$2; shift 2
 CHECKS=${@:-$ID}
-W=/tmp/seed/$ID; O=/tmp/seed/out/$ID; D=/verif/seeded/${ID}_$V
+W=/tmp/seed/$ID; O=/tmp/seed/out${ROUND:+$ROUND}/$ID; D=/verif/seeded/${ID}_${ROUND:+r$ROUND}$V   # ROUND=2 selects the second round's deliverables
 mkdir -p $D
 cp $O/patch_$V.diff $D/patch.diff; cp $O/demo_$V.* $D/
 python3 - "$O/meta.json" "$V" "$D/meta.json" <<'PY'
